@@ -94,6 +94,16 @@ def rule_plain_token_values(ctx, rid="C13.PLAIN-TOKEN-VALUES"):
 
 
 def check(rep):
+    from pyab_static.absint import ContentDependent
+    from pyab_static.core import FloorError
+    try:
+        return _check(rep)
+    except ContentDependent as e:
+        rep.bad("C13.STRUCTURE-CONTENT-FREE", "language/grammar.py|codegen: literal text cut into pieces", f"{e}: the structure of the generated program (how many constants, which kinds) is decided by the characters of a literal", text=str(e)[:160])
+        raise FloorError(f"stopped at a content-dependent operation on a literal: {e}")
+
+
+def _check(rep):
     ctx = Ctx(rep)
     ctx.shape_options.add("overflow")      # "any other token": numbers whose value has no literal spelling of its own (inf)
     if rep.tier == "thorough":
